@@ -140,6 +140,8 @@ func readErrClass(err error) string {
 		return "compbit"
 	case errHang:
 		return "hang"
+	case errPanic:
+		return "panic"
 	}
 	if c := ioErrClass(err); c != "other" {
 		return c
@@ -151,6 +153,7 @@ func readErrClass(err error) string {
 }
 
 var errHang = fmt.Errorf("verif: no progress")
+var errPanic = fmt.Errorf("verif: the library panicked")
 
 func newReader(src io.Reader, c rcfg, evs *[]event, ms *wsflate.MessageState) *wsutil.Reader {
 	rd := &wsutil.Reader{Source: src, State: ws.State(c.state), SkipHeaderCheck: c.skip, CheckUTF8: c.chk, MaxFrameSize: c.max}
@@ -273,7 +276,17 @@ func runRD(c *ctx, kind string, cfg rcfg, fs []sframe, cut string, spec, tail, b
 		}
 	}
 	src := newChunkReader(w, spec, tail)
-	evs, partial, err := driveReader(src.R(), cfg, intsSpec(bufs), 2*len(w)+100)
+	var evs []event
+	var partial []byte
+	var err error
+	func() {
+		defer func() {
+			if r := recover(); r != nil {
+				err = errPanic // a panic inside the library is an observation, not the end of the run
+			}
+		}()
+		evs, partial, err = driveReader(src.R(), cfg, intsSpec(bufs), 2*len(w)+100)
+	}()
 	c.emit("%s %s %s %s %s %s %s -> %s %s %s %d", kind, cfg.tok(), framesTok(fs), cut, spec, tail, bufs,
 		eventsTok(evs), hx(partial), readErrClass(err), src.used())
 }
@@ -292,7 +305,14 @@ func runRM(c *ctx, kind string, state byte, fs []sframe, cut string, spec, tail 
 	var err error
 	for i := 0; i < len(fs)+2; i++ {
 		var msgs []wsutil.Message
-		msgs, err = wsutil.ReadMessage(src.R(), ws.State(state), nil)
+		func() {
+			defer func() {
+				if r := recover(); r != nil {
+					err = errPanic
+				}
+			}()
+			msgs, err = wsutil.ReadMessage(src.R(), ws.State(state), nil)
+		}()
 		for j, m := range msgs {
 			inter := j < len(msgs)-1 || err != nil
 			evs = append(evs, event{byte(m.OpCode), inter, false, m.Payload})
